@@ -110,12 +110,18 @@ def attribute(job, ob):
     props = set(job["props"])
     is_gen = job["kind"] == "gen"
     out = set()
+    if kind == "await-effect":
+        return {"C17"}
+    if kind == "kind":
+        return {"C03"}
     if kind in ("release",):
         out |= {"C04", "C18"} & props
         return out or {"C04"}
     if kind == "exc-identity":
         return ({"C06", "C18"} & props) or {"C06"}
     if kind == "effect":
+        if name.startswith("effect/"):
+            return {"C17"}
         return {"C03"} | ({"C19"} & props)
     if kind in ("inv-init", "inv-step", "inv-declared"):
         return props - {"C04", "C18"} or props
